@@ -101,6 +101,45 @@ def mutants(rng, tok, other):
     return [(k, v) for k, v in out if v != tok]
 
 
+def jwt_forgeries(rs, tok, clients):
+    """re-signed variants of a genuine JWT token: keys the provider's key jar holds for OTHER issuers (the
+    client secrets that registration stores under the client id), a fresh foreign key, the provider's own
+    public key used as an HMAC secret; iss rewritten or not, class / expiry rewritten"""
+    from cryptojwt.jws.jws import JWS
+    from cryptojwt.jwk.hmac import SYMKey
+    from cryptojwt.jwk.rsa import new_rsa_key
+    out = []
+    if tok.count(".") != 2:
+        return out
+    h, p, s = tok.split(".")
+    try:
+        pay = json.loads(base64.urlsafe_b64decode(p + "=" * (-len(p) % 4)))
+    except Exception:
+        return out
+    def sign(payload, key, alg):
+        return JWS(json.dumps(payload), alg=alg).sign_compact([key])
+    for c in clients[:2]:
+        key = SYMKey(key=rs.secret(c), use="sig")
+        for alg in ("HS256", "HS512"):
+            out.append(("resign-%s-client-secret-iss-kept" % alg, sign(pay, key, alg)))
+            q = dict(pay, iss=c)
+            out.append(("resign-%s-client-secret-iss-client" % alg, sign(q, key, alg)))
+        q = dict(pay, iss=c, exp=pay.get("exp", 0) + 10 ** 7)
+        out.append(("resign-HS256-client-secret-iss-client-exp", sign(q, key, "HS256")))
+        for cls in ("authorization_code", "access_token", "refresh_token"):
+            if pay.get("token_class") not in (None, cls):
+                out.append(("resign-HS256-client-secret-iss-client-class", sign(dict(pay, iss=c, token_class=cls), key, "HS256")))
+    fk = new_rsa_key()
+    out.append(("resign-RS256-fresh-key", sign(pay, fk, "RS256")))
+    out.append(("resign-RS256-fresh-key-iss-client", sign(dict(pay, iss=clients[0]), fk, "RS256")))
+    try:
+        pub = rs.server.keyjar.export_jwks_as_json(issuer_id="")
+        out.append(("resign-HS256-own-public-jwks-as-secret", sign(pay, SYMKey(key=pub, use="sig"), "HS256")))
+    except Exception:
+        pass
+    return [(k, v) for k, v in out if v != tok]
+
+
 def present(rs, slot, value, client):
     """present a raw string in a slot of the real endpoints; returns ('accepted', detail) or ('refused', why)"""
     try:
@@ -236,7 +275,30 @@ def endpoint_oracle(ctx, rng, variant, n_flows, n_mut):
                 val = rs.tokens[tid]
                 other = rs.tokens[flows[0][cls]] if flows[0] is not f else None
                 muts = mutants(rng, val, other)
-                for name, m in rng.sample(muts, min(n_mut, len(muts))):
+                forged = jwt_forgeries(rs, val, sess.CLIENTS)
+                for name, m in forged:
+                    # handler level: a forged value must not resolve at any class handler, nor at the session manager
+                    for hk in ("authorization_code", "access_token", "refresh_token"):
+                        try:
+                            info = th.handler[hk].info(m)
+                            ok = bool(info.get("sid"))
+                        except Exception:
+                            ok = False
+                        rec = {"variant": variant, "class": real_cls, "handler": hk, "mutation": name, "resolved": ok}
+                        ctx.case_seen(rec, True)
+                        ctx.count("forged:%s:%s" % (name, "resolved" if ok else "refused"))
+                        if ok:
+                            ctx.violation("mutant-accepted", "%s forgery of a %s resolves at handler %s to session %s"
+                                          % (name, real_cls, hk, info.get("sid", "")[:20]), rec)
+                    try:
+                        si = rs.sm.get_session_info_by_token(m, grant=True)
+                        ok = bool(si.get("grant"))
+                    except Exception:
+                        ok = False
+                    if ok:
+                        ctx.violation("mutant-accepted", "%s forgery of a %s resolves to a session at the session manager" % (name, real_cls),
+                                      {"variant": variant, "class": real_cls, "mutation": name})
+                for name, m in rng.sample(muts, min(n_mut, len(muts))) + forged:
                     for slot in SLOT_OF[real_cls]:
                         verdict, detail = present(rs, slot, m, f["client"])
                         rec = {"variant": variant, "class": real_cls, "slot": slot, "mutation": name, "verdict": verdict}
